@@ -231,6 +231,9 @@ def registry_leg(ctx):
                                ('orderby', lambda: selectq.bql.select_ast([(ast.Column(cn), 'r')], tn, order_by=[ast.OrderBy(ast.Column(cn), ast.Ordering.ASC)], limit=200)),
                                ('groupby', lambda: selectq.bql.select_ast([(ast.Column(cn), 'r'), (ast.Function('count', [ast.Asterisk()]), 'n')], tn,
                                                                           group_by=ast.GroupBy([1], None), limit=200)),
+                               ('implicit-groupby', lambda: selectq.bql.select_ast([(ast.Column(cn), 'r'), (ast.Function('count', [ast.Asterisk()]), 'n')], tn, limit=200)),
+                               ('groupby-hidden', lambda: selectq.bql.select_ast([(ast.Function('count', [ast.Asterisk()]), 'n')], tn,
+                                                                                 group_by=ast.GroupBy([ast.Column(cn)], None), limit=200)),
                                ('min', lambda: selectq.bql.select_ast([(ast.Function('min', [ast.Column(cn)]), 'r')], tn)),
                                ('max', lambda: selectq.bql.select_ast([(ast.Function('max', [ast.Column(cn)]), 'r')], tn)),
                                ('first', lambda: selectq.bql.select_ast([(ast.Function('first', [ast.Column(cn)]), 'r')], tn)),
